@@ -40,6 +40,26 @@ def main():
         if os.path.isfile(os.path.join(src, f)):
             shutil.copy(os.path.join(src, f), dst)
     patch = os.path.join(dst, "patch.diff")
+    # /repo may have moved on since the change was written (later fix/hook commits): if the patch no longer applies
+    # as it is, rebase it with a 3-way apply in a scratch worktree and keep the rebased diff next to the original.
+    hand = os.path.join(dst, "patch.rebased.diff")
+    if subprocess.run(["git", "-C", "/repo", "apply", "--check", patch], capture_output=True).returncode != 0 and os.path.exists(hand) and \
+            subprocess.run(["git", "-C", "/repo", "apply", "--check", hand], capture_output=True).returncode == 0:
+        patch = hand  # a port of the change to the current tree made by hand (recorded in meta.json)
+    elif subprocess.run(["git", "-C", "/repo", "apply", "--check", patch], capture_output=True).returncode != 0:
+        rb = "/tmp/wt-seedrebase"
+        subprocess.run(["git", "-C", "/repo", "worktree", "remove", "--force", rb], capture_output=True)
+        subprocess.check_call(["git", "-C", "/repo", "worktree", "add", "-q", "--detach", rb, "HEAD"])
+        try:
+            r = subprocess.run(["git", "apply", "--3way", patch], cwd=rb, capture_output=True, text=True)
+            if r.returncode != 0:
+                print(r.stdout, r.stderr)
+                raise SystemExit("patch does not apply to /repo HEAD, not even 3-way")
+            d = subprocess.check_output(["git", "diff", "HEAD"], cwd=rb, text=True)
+            open(os.path.join(dst, "patch.rebased.diff"), "w").write(d)
+            patch = os.path.join(dst, "patch.rebased.diff")
+        finally:
+            subprocess.run(["git", "-C", "/repo", "worktree", "remove", "--force", rb], capture_output=True)
     files = re.findall(r"^\+\+\+ b/(\S+)", open(patch).read(), re.M)
     pkgs = sorted({"./" + os.path.dirname(f) for f in files})
     conf = {"repo_head": subprocess.check_output(["git", "-C", "/repo", "rev-parse", "--short", "HEAD"], text=True).strip(), "touched": files}
